@@ -188,7 +188,7 @@ def run_threads(params, ch):
         _WARM.add(key)
         from ..chooser import FixedChooser
         run_threads(params, FixedChooser())
-    s = Session(ch, CFG_MIRROR if params.get('mirror') else CFG, twin='sync', lock_factory=SchedLock, max_calls=5000)
+    s = Session(ch, CFG_MIRROR if params.get('mirror') else CFG, twin='sync', lock_factory=SchedLock, max_calls=5000, wcap=bool(params.get('wcap')))
     probe = None
     try:
         r0 = s.op(('connect',))
@@ -347,6 +347,8 @@ def _parts(tier):
                         what='line-level scheduling points inside the I/O manager, the packet store, _open and the filesync helpers', bound='preemptions <= 1, <=1 wire-order deviation'))
         out.append(Part('threads-lines-pb2', [{'scenario': 'shell|stat', 'trace': 1}], run_threads, {'sched': 2, 'dev-order': 0}, split=3,
                         what='line-level scheduling points, two preemptions', bound='preemptions <= 2, one scenario'))
+    out.append(Part('threads-short-writes', [{'scenario': k, 'wcap': True} for k in ('shell2|shell1', 'shell|push')], run_threads, {'sched': 1, 'wcap': 1, 'dev-order': 0}, split=2,
+                    what='2 threads over a transport that writes short: one preemption x one short write', bound='preemptions <= 1, short writes <= 1'))
     out.append(Part('tasks', [{'scenario': k} for k in SCENARIOS] + [{'scenario': k, 'mirror': True} for k in SCENARIOS], run_tasks, {'io-order': None, 'dev-order': None}, split=2,
                     what='asyncio tasks: every completion order of pending transport I/O x every device wire order', bound='complete (no bound)'))
     return out
